@@ -104,6 +104,10 @@ def make_watched():
     return Recorder, WatchedConfig, WatchedClasses, WatchedDict
 
 
+def _int_identity(obj, serialize_method, ignore_attribute, ignore, config):
+    return obj
+
+
 class ServerConfig(object):
     """The configuration objects of one history / threads case.
 
@@ -130,6 +134,10 @@ class ServerConfig(object):
             hd = WDict()
             for k, v in handlers:
                 hd[k] = v
+            # a real handler as well: the identity on `int` (so that replies stay what the model predicts).  Results
+            # holding a bool -- an instance of a SUBCLASS of the handled type -- must neither use it nor make serving
+            # write anything into the table
+            hd[int] = _int_identity
             cfg.classes = cl
             cfg.serialize_handlers = hd
             cl._rec = hd._rec = self.rec_server
@@ -199,6 +207,10 @@ BODY_KINDS = {
     "call-1.0": lambda: _r("ok", [1, "x"], 12, False),
     "failing-2.0": lambda: _r("fail", [], 13, True),
     "failing-1.0": lambda: _r("fail", [], "s14", False),
+    "echo-bool-2.0": lambda: _r("echo", [True, 0, {"k": False}], 33, True),
+    "echo-bool-1.0": lambda: _r("echo", [True, 1], 34, False),
+    "opq-2.0": lambda: _r("opq", [], 35, True),
+    "opq-1.0": lambda: _r("opq", [], 36, False),
     "fault-2.0": lambda: _r("flt", [], 31, True),
     "fault-1.0": lambda: _r("flt", [], 32, False),
     "unknown-2.0": lambda: _r("nope", A, 15, True),
